@@ -185,6 +185,10 @@ def main(argv=None):
     # fit is reported as inconclusive in the evidence, never as held
     budget = float(os.environ.get("VERIF_WALL_BUDGET", "3000" if tier == "quick" else "2100"))
     DEADLINE[0] = time.time() + budget
+    cap = os.environ.get("VERIF_INSTANCE_CAP")  # development aid: cap every instance's timeout (a capped run proves less, never more)
+    if cap:
+        for j in jobs:
+            j["timeout"] = min(j["timeout"], float(cap))
     results = []
     with cf.ThreadPoolExecutor(max_workers=a.jobs) as ex:
         for r in ex.map(run_job, jobs):
